@@ -7,6 +7,7 @@ from functools import update_wrapper
 from io import StringIO
 from itertools import chain
 from keyword import iskeyword as is_python_keyword
+from unicodedata import normalize
 
 from markupsafe import escape
 from markupsafe import Markup
@@ -633,6 +634,17 @@ class CodeGenerator(NodeVisitor):
     def func(self, name: str) -> str:
         return f"{self.choose_async()}def {name}"
 
+    def block_func_name(self, name: str) -> str:
+        """The name of the function a block is compiled to. Python compares
+        identifiers in their NFKC form, so a name that changes under that
+        normalization is spelled out as the hex digits of its encoding. A
+        block name cannot start with a digit, the result is unique.
+        """
+        if normalize("NFKC", name) != name:
+            name = f"0{name.encode().hex()}"
+
+        return f"block_{name}"
+
     def macro_body(
         self, node: nodes.Macro | nodes.CallBlock, frame: Frame
     ) -> tuple[Frame, MacroRef]:
@@ -935,8 +947,9 @@ class CodeGenerator(NodeVisitor):
 
         # at this point we now have the blocks collected and can visit them too.
         for name, block in self.blocks.items():
+            block_func = self.block_func_name(name)
             self.writeline(
-                f"{self.func('block_' + name)}(context, missing=missing{envenv}):",
+                f"{self.func(block_func)}(context, missing=missing{envenv}):",
                 block,
                 1,
             )
@@ -953,7 +966,7 @@ class CodeGenerator(NodeVisitor):
                 self.writeline(f"{ref} = TemplateReference(context)")
             if "super" in undeclared:
                 ref = block_frame.symbols.declare_parameter("super")
-                self.writeline(f"{ref} = context.super({name!r}, block_{name})")
+                self.writeline(f"{ref} = context.super({name!r}, {block_func})")
             block_frame.symbols.analyze_node(block)
             block_frame.block = name
             self.writeline("_block_vars = {}")
@@ -963,7 +976,9 @@ class CodeGenerator(NodeVisitor):
             self.leave_frame(block_frame, with_python_scope=True)
             self.outdent()
 
-        blocks_kv_str = ", ".join(f"{x!r}: block_{x}" for x in self.blocks)
+        blocks_kv_str = ", ".join(
+            f"{x!r}: {self.block_func_name(x)}" for x in self.blocks
+        )
         self.writeline(f"blocks = {{{blocks_kv_str}}}", extra=1)
         debug_kv_str = "&".join(f"{k}={v}" for k, v in self.debug_info)
         self.writeline(f"debug_info = {debug_kv_str!r}")
